@@ -326,7 +326,7 @@ func conv[Int constraints.Integer | *big.Int | ~[]byte](i Int) *big.Int {
 	switch vi.Kind() {
 	case reflect.Int, reflect.Int8, reflect.Int16, reflect.Int32, reflect.Int64:
 		result.SetInt64(vi.Int())
-	case reflect.Uint, reflect.Uint8, reflect.Uint16, reflect.Uint32, reflect.Uint64:
+	case reflect.Uint, reflect.Uint8, reflect.Uint16, reflect.Uint32, reflect.Uint64, reflect.Uintptr:
 		result.SetUint64(vi.Uint())
 	case reflect.Slice:
 		result.SetBytes(vi.Bytes())
